@@ -15,6 +15,12 @@ import (
 func init() { Register("C02", checkC02) }
 
 var c02Pins = []pin{
+	{"updateFunCallFunType", "nf", `match(p2; VarRef_VRVar -> match(payload(VarRef_VRVar).Ftype; FType_FFunc -> p2; FType_FTypeVar -> seq[updateResolver(p1, [UniRel{SrcV: payload(FType_FTypeVar).Name, Dest: newFFunc(slice.PushLast(New_FType_FTypeVar(p0()), slice.Map(ExprToType, p3)))}])] New_VarRef_VRVar(Var{Name: payload(VarRef_VRVar).Name, Ftype: newFFunc(slice.PushLast(New_FType_FTypeVar(p0()), slice.Map(ExprToType, p3)))}); _ -> seq[PanicNow("Unknown funcall first arg type.")] p2); VarRef_VRSVar -> p2; _ -> never)`,
+		"an applied variable whose type is still a variable gets the function type [types of the arguments in order; a fresh result variable], recorded as a relation and in the returned reference; a variable already of function type is left alone"},
+	{"collectTVarFTypeWithSet", "nf", `match(p1; FType_FTypeVar -> [payload(FType_FTypeVar).Name]; FType_FSlice -> collectTVarFTypeWithSet(p0, payload(FType_FSlice).ElemType); FType_FTuple -> slice.Collect(collectTVarFTypeWithSet(p0, _), payload(FType_FTuple).ElemTypes); FType_FFieldAccess -> collectTVarFTypeWithSet(p0, payload(FType_FFieldAccess).RecType); FType_FRecord -> if(SSetHasKey(p0, rtToKey(payload(FType_FRecord))), slice.New(), seq[SSetPut(p0, rtToKey(payload(FType_FRecord)))] slice.Append(slice.Collect(collectTVarFTypeWithSet(p0, _), slice.Map(\x0. x0.Ftype, lookupRecInfo(payload(FType_FRecord)).Fields)), slice.Collect(collectTVarFTypeWithSet(p0, _), payload(FType_FRecord).Targs))); FType_FUnion -> if(SSetHasKey(p0, uniToKey(payload(FType_FUnion))), slice.New(), seq[SSetPut(p0, uniToKey(payload(FType_FUnion)))] slice.Append(slice.Collect(collectTVarFTypeWithSet(p0, _), slice.Map(\x1. x1.Ftype, utCases(payload(FType_FUnion)))), slice.Collect(collectTVarFTypeWithSet(p0, _), payload(FType_FUnion).Targs))); FType_FFunc -> slice.Collect(collectTVarFTypeWithSet(p0, _), payload(FType_FFunc).Targets); FType_FParamd -> slice.Collect(collectTVarFTypeWithSet(p0, _), payload(FType_FParamd).Targs); _ -> slice.New())`,
+		"the free-variable collector visits every component of every type constructor unconditionally (type arguments and, through the info table, fields and case payloads of records and unions — generic or not), each named instance once"},
+	{"transTVFTypeWithSet", "nf", `match(p2; FType_FTypeVar -> p1(payload(FType_FTypeVar)); FType_FSlice -> New_FType_FSlice(SliceType{ElemType: transTVFTypeWithSet(p0, p1, payload(FType_FSlice).ElemType)}); FType_FTuple -> New_FType_FTuple(TupleType{ElemTypes: slice.Map(transTVFTypeWithSet(p0, p1, _), payload(FType_FTuple).ElemTypes)}); FType_FFieldAccess -> faResolve(FieldAccessType{RecType: transTVFTypeWithSet(p0, p1, payload(FType_FFieldAccess).RecType), FieldName: payload(FType_FFieldAccess).FieldName}); FType_FFunc -> newFFunc(slice.Map(transTVFTypeWithSet(p0, p1, _), payload(FType_FFunc).Targets)); FType_FParamd -> New_FType_FParamd(ParamdType{Name: payload(FType_FParamd).Name, Targs: slice.Map(transTVFTypeWithSet(p0, p1, _), payload(FType_FParamd).Targs)}); FType_FRecord -> if(#1(TMemoTryFind(p0, rtToKey(payload(FType_FRecord)))), #0(TMemoTryFind(p0, rtToKey(payload(FType_FRecord)))), seq[TMemoPut(p0, rtToKey(payload(FType_FRecord)), p2); TMemoPut(p0, rtToKey(payload(FType_FRecord)), New_FType_FRecord(newRecTypeWith(slice.Map(transTVFTypeWithSet(p0, p1, _), slice.Map(\x0. x0.Ftype, lookupRecInfo(payload(FType_FRecord)).Fields)), transTVFTypeWithSet(p0, p1, _), payload(FType_FRecord))))] New_FType_FRecord(newRecTypeWith(slice.Map(transTVFTypeWithSet(p0, p1, _), slice.Map(\x1. x1.Ftype, lookupRecInfo(payload(FType_FRecord)).Fields)), transTVFTypeWithSet(p0, p1, _), payload(FType_FRecord)))); FType_FUnion -> if(#1(TMemoTryFind(p0, uniToKey(payload(FType_FUnion)))), #0(TMemoTryFind(p0, uniToKey(payload(FType_FUnion)))), seq[TMemoPut(p0, uniToKey(payload(FType_FUnion)), p2); updateUniInfo(UnionType{Name: payload(FType_FUnion).Name, Targs: slice.Map(transTVFTypeWithSet(p0, p1, _), payload(FType_FUnion).Targs)}, UnionTypeInfo{Cases: slice.Map(\x2. newNTPair(#0(x2), #1(x2)), slice.Zip(slice.Map(\x3. x3.Name, utCases(payload(FType_FUnion))), slice.Map(transTVFTypeWithSet(p0, p1, _), slice.Map(\x4. x4.Ftype, utCases(payload(FType_FUnion))))))}); TMemoPut(p0, uniToKey(payload(FType_FUnion)), New_FType_FUnion(UnionType{Name: payload(FType_FUnion).Name, Targs: slice.Map(transTVFTypeWithSet(p0, p1, _), payload(FType_FUnion).Targs)}))] New_FType_FUnion(UnionType{Name: payload(FType_FUnion).Name, Targs: slice.Map(transTVFTypeWithSet(p0, p1, _), payload(FType_FUnion).Targs)})); _ -> p2)`,
+		"the substitution rebuilds every component of every type constructor (element-wise images), memoised per named instance with the placeholder discipline"},
 	{"collectExprRel", "nf", `match(p0; Expr_EFunCall -> slice.Append(slice.Concat(slice.Map(collectExprRel, payload(Expr_EFunCall).Args)), collectFunCall(payload(Expr_EFunCall))); Expr_EBinOpCall -> slice.Concat([collectExprRel(payload(Expr_EBinOpCall).Lhs), collectExprRel(payload(Expr_EBinOpCall).Rhs), unifyType(ExprToType(payload(Expr_EBinOpCall).Lhs), ExprToType(payload(Expr_EBinOpCall).Rhs)), match(payload(Expr_EBinOpCall).Rtype; FType_FBool -> emptyRels(); _ -> unifyType(payload(Expr_EBinOpCall).Rtype, ExprToType(payload(Expr_EBinOpCall).Lhs)))]); Expr_ETupleExpr -> slice.Concat(slice.Map(collectExprRel, payload(Expr_ETupleExpr))); Expr_ELambda -> collectBlock(collectExprRel, collectStmtRel(collectExprRel, _), payload(Expr_ELambda).Body); Expr_ESlice -> slice.Append(slice.Concat(slice.Map(collectExprRel, payload(Expr_ESlice))), collectSlice(payload(Expr_ESlice))); Expr_ERecordGen -> slice.Append(slice.Concat(slice.Map(collectExprRel, slice.Map(\x0. x0.Expr, payload(Expr_ERecordGen).FieldsNV))), slice.Concat(slice.Map(recNTUnify(payload(Expr_ERecordGen).RecordType, _), slice.Map(NEPToNT, payload(Expr_ERecordGen).FieldsNV)))); Expr_ELazyBlock -> collectBlock(collectExprRel, collectStmtRel(collectExprRel, _), payload(Expr_ELazyBlock).Block); Expr_EReturnableExpr -> match(payload(Expr_EReturnableExpr); ReturnableExpr_RBlock -> collectBlock(collectExprRel, collectStmtRel(collectExprRel, _), payload(ReturnableExpr_RBlock)); ReturnableExpr_RMatchExpr -> slice.Append(collectExprRel(payload(ReturnableExpr_RMatchExpr).Target), slice.Concat(slice.Map(collectBlock(collectExprRel, collectStmtRel(collectExprRel, _), _), mrsToBlocks(payload(ReturnableExpr_RMatchExpr).Rules)))); _ -> never); _ -> emptyRels())`,
 		"constraint generation per expression kind: sub-expressions first; a binary operator relates its operands to each other and — unless its result is bool (a comparison constrains nothing further) — its result to them; slices, record literals, calls and matches add their own anchor relations"},
 	// numbering of leftover variables: first occurrence in the function type (parameters then result), then parameters, then body
